@@ -563,8 +563,9 @@ TIERS = {
         walks=160, steps=30, procs=8),
     "thorough": dict(
         mc=[("d1", "CapA = {0,1,2,3,4,5,6,7,8} CapB = {0,1,2,3,4,5,6,7,8} MaxCap = 10 MaxSteps = 1 GrowAmounts = {1,2} NativeLens = {0,1,2,3,4,5,6,8}", 2),
-            ("d2", "CapA = {0,1,2,3,4,5,6} CapB = {0,1,2,3,4,5,6} MaxCap = 8 MaxSteps = 2 GrowAmounts = {1,2} NativeLens = {0,1,2,3,4,5,6}", 6),
-            ("d3", "CapA = {0,1,2} CapB = {0,1,2,3} MaxCap = 4 MaxSteps = 3 GrowAmounts = {1} NativeLens = {0,1,2,3}", 6)],
+            ("d2", "CapA = {0,1,2,3,4,5,6} CapB = {6} MaxCap = 8 MaxSteps = 2 GrowAmounts = {1,2} NativeLens = {0,2,4,6}", 6),
+            ("d3", "CapA = {0,1} CapB = {2,3} MaxCap = 4 MaxSteps = 3 GrowAmounts = {1} NativeLens = {0,1,2,3}", 4),
+            ("d3b", "CapA = {2} CapB = {2} MaxCap = 3 MaxSteps = 3 GrowAmounts = {1} NativeLens = {0,1,2}", 3)],
         gen=[("g1", "CapA = {0,1,2,3,4,5,6} CapB = {0,1,2,3,4,5,6} MaxCap = 8 MaxSteps = 1 GrowAmounts = {1,2} NativeLens = {0,1,2,3,4,5,6}", None, None, 8),
              ("g1w", "CapA = {0,3,8} CapB = {8} MaxCap = 10 MaxSteps = 1 GrowAmounts = {2} NativeLens = {0,4,8}", None, None, 8),
              ("g2a", "CapA = {0} CapB = {4} MaxCap = 5 MaxSteps = 2 GrowAmounts = {1} NativeLens = {2,4}", None, 3, 4),
@@ -597,7 +598,7 @@ def model_check(run, tier):
         tag, consts, workers = job
         wd = C.scratch("c13mc")
         open(os.path.join(wd, tag + ".cfg"), "w").write(MC_CFG.format(c=consts, base=BASE))
-        res = C.run_tlc("MC_XoBytes", tag + ".cfg", workdir=wd, workers=workers, timeout=3000)
+        res = C.run_tlc("MC_XoBytes", tag + ".cfg", workdir=wd, workers=workers, timeout=3000, jvm=("-Xmx3g",))
         shutil.rmtree(wd, ignore_errors=True)
         return tag, res
 
@@ -620,7 +621,7 @@ def export(run, tier):
         wd = C.scratch("c13gen")
         open(os.path.join(wd, tag + ".cfg"), "w").write(GEN_CFG.format(c=consts, base=BASE, spec="SSpec" if sim else "GSpec"))
         extra = ["-seed", str(run.seed + 1), "-depth", "6"] if sim else []
-        res = C.run_tlc("XoBytesGen", tag + ".cfg", workdir=wd, workers=1, timeout=3000, simulate=sim, extra=extra)
+        res = C.run_tlc("XoBytesGen", tag + ".cfg", workdir=wd, workers=1, timeout=3000, simulate=sim, extra=extra, jvm=("-Xmx2g",))
         path = os.path.join(run.tmp, tag + ".out")
         n = 0
         with open(path, "w") as f:
@@ -833,7 +834,7 @@ def validate(traces, nbatch):
         cfg = ('SPECIFICATION TraceSpec\nCONSTANTS Caps = {} MaxCap = 0 Widths = {1,2,4,8} Layouts = {"C","F","S"} MaxSteps = 0 '
                'GrowAmounts = {} NativeLens = {}\nCHECK_DEADLOCK FALSE\n')
         open(os.path.join(wd, "tr.cfg"), "w").write(cfg)
-        res = C.run_tlc("XoBytesTrace", "tr.cfg", workdir=wd, workers=1, timeout=3000, env={"TRACE_FILE": path}, jvm=("-Xmx3g",))
+        res = C.run_tlc("XoBytesTrace", "tr.cfg", workdir=wd, workers=1, timeout=3000, env={"TRACE_FILE": path}, jvm=("-Xmx2g",))
         done = C.tlc_tuples(res["out"], "DONE")
         if res["rc"] != 0 or len(done) != len(ids) or any(d[2] != len(traces[ids[d[1] - 1]]["ev"]) for d in done):
             raise C.MachineryError(f"trace validation: rc={res['rc']} done={len(done)}/{len(ids)}\n" + res["out"][-3000:])
